@@ -135,6 +135,21 @@ pub fn emit(mods: &ModuleSet) -> EmitOutcome {
     }
 }
 
+/// Evaluates and emits with an optional base document; returns the typed document too.
+pub fn emit_full(
+    mods: &ModuleSet,
+    base: Option<openapiv3::OpenAPI>,
+) -> Result<(openapiv3::OpenAPI, String), CError> {
+    let spec = oal_compiler::eval::eval(mods)?;
+    let mut b = oal_openapi::Builder::new(spec);
+    if let Some(base) = base {
+        b = b.with_base(base);
+    }
+    let api = b.into_openapi();
+    let yaml = serde_yaml::to_string(&api).expect("serialisation");
+    Ok((api, yaml))
+}
+
 /// Complete outcome of the pipeline on a set of module texts.
 pub enum Run {
     Rejected(LoadError),
